@@ -536,11 +536,50 @@ RULES["C06"] = ("behaviours of the file-system machine spec/FS.tla: command list
                 "non-trivial = at least one match")
 
 
+def big_file_cases(base, quick):
+    """Files beyond the reader's 4096-byte window and the writer's buffers: unchanged stretches longer than a
+    window before, between and after the matches, zero matches, a match across the window boundary.  Plain
+    literal bodies: the specification's direct scan (LitScan of spec/FS.tla, equal to the semantics on every
+    small case: LitScanAgrees) gives the expected files."""
+    A, B, Cc = 97, 98, 99
+    z9 = [122, 57]
+    contents = [
+        [A] * 5000 + z9 + [B] * 4500 + z9 + [Cc] * 300,
+        z9 + [A] * 9000,
+        [A] * 9000,
+        [A] * 4095 + z9 + [B] * 4097 + z9,
+        ([A, B, Cc, 10] * 1100) + z9 + ([B, A] * 2500),
+    ]
+    if not quick:
+        contents += [[A] * 4096 + z9 + [B] * 4096, [A] * 12289 + z9 + [B] * 8193 + z9 + [Cc] * 2047, z9 * 3000,
+                     [A] * 2047 + z9 + [B] * 2048 + z9 + [Cc] * 6145 + z9]
+    lit_ = lambda b: {"k": "lit", "s": list(b), "ci": False, "neg": False}
+    withs = [list(b"A-LONGER-REPLACEMENT-TEXT"), [], [81]]
+    cmds = [[{"kind": "replace", "amt": {"k": "all"}, "body": [lit_(z9)], "with": [{"k": "str", "s": w}]}] for w in withs]
+    cmds.append([{"kind": "find", "amt": {"k": "all"}, "body": [lit_(z9)]}])
+    cmds.append([{"kind": "replace", "amt": {"k": "all"}, "body": [lit_(z9)], "with": [{"k": "str", "s": [81, 81, 81]}]},
+                 {"kind": "find", "amt": {"k": "all"}, "body": [lit_([81, 81])]}])
+    out = []
+    for ct in contents:
+        for cl in cmds:
+            for mode in ("NEW", "OVERWRITE", "NOTHING"):
+                for stale in (False, True):
+                    if stale and mode != "NEW":
+                        continue
+                    files = [{"name": "f.txt", "bytes": ct}]
+                    if stale:
+                        files.append({"name": "f.txt.vored", "bytes": [122] * (len(ct) + 500)})
+                    out.append({"id": base + len(out), "big": True, "defs": [], "trans": [], "cmds": cl, "files": files,
+                                "order": ["f.txt"], "mode": mode})
+    return out
+
+
 @check("C06")
 def c06(ctx):
     ctx.technique = "file-system state machine spec/FS.tla model-checked (mode invariants, splice lemma); every behaviour replayed through RunFiles"
     cases = ctx.gen_cases("C06")
-    docs, st = run_sharded_machine(ctx, "FS", cases, ["OnlyAllowedFilesChange", "SpliceLemma", "Emit"])
+    cases += big_file_cases(max(c["id"] for c in cases) + 1, ctx.tier == "quick")
+    docs, st = run_sharded_machine(ctx, "FS", cases, ["OnlyAllowedFilesChange", "SpliceLemma", "LitScanAgrees", "Emit"])
     if len(docs) != len(cases):
         raise Undecided("FS.tla emitted %d final states for %d cases" % (len(docs), len(cases)))
     ctx.add_mc("FS", st, "OnlyAllowedFilesChange and SpliceLemma in every state of every behaviour of the file-system machine")
@@ -831,6 +870,17 @@ def reader_plan(tier):
     for s in ([9000] if tier == "quick" else [4096, 9000, 12289]):
         runs.append({"size": s, "src": "replace all 'z9' with 'long-replacement'", "mode": "NEW"})
         runs.append({"size": s, "src": "replace all 'ab c' with ''", "mode": "NEW"})
+        # unchanged stretches far longer than the window: one read for the whole file / the whole tail
+        runs.append({"size": s, "src": "replace all 'q' with 'x'", "mode": "NEW"})
+        runs.append({"size": s, "src": "replace all file start 'ab' with 'Z'", "mode": "NEW"})
+        runs.append({"size": s, "src": "replace all 'z9' file end with 'THE-END'", "mode": "OVERWRITE"})
+        # several commands on one file: every command reads the file as it is then
+        runs.append({"size": s, "src": "replace all 'z9' with 'Q' find all 'z9'", "mode": "NOTHING"})
+        runs.append({"size": s, "src": "replace all 'z9' with 'Q' find all 'xy' replace all 'c' with ''", "mode": "NEW"})
+    for s in ([4097] if tier == "quick" else [1, 2, 4097, 8193]):
+        # reads that ask for more bytes than are left (a negated literal near the end of the file)
+        runs.append({"size": s, "src": "find all not 'qqq'", "mode": "NOTHING"})
+        runs.append({"size": s, "src": "find all 'z' not in 'qqqq', '9\\nab'", "mode": "NOTHING"})
     return {"pattern": PATTERN, "runs": runs}
 
 
@@ -1115,6 +1165,10 @@ RULES["C16"] = ("every spelling (raw, escape letter, \\\\xHH upper and lower cas
 
 
 def lit_spell(rnd, b, q):
+    return rnd.choice(lit_spell_opts(b, q))
+
+
+def lit_spell_opts(b, q):
     opts = ["\\x%02x" % b, "\\x%02X" % b]
     esc = {10: "n", 9: "t", 13: "r", 7: "a", 8: "b", 12: "f", 11: "v"}
     if b in esc:
@@ -1123,7 +1177,7 @@ def lit_spell(rnd, b, q):
         opts.append(chr(b))
     if chr(b) not in "ntrabfvx":
         opts.append("\\" + chr(b))
-    return rnd.choice(opts)
+    return opts
 
 
 @check("C16")
@@ -1165,6 +1219,28 @@ def c16(ctx):
                       "body": [{"k": "lit", "s": bs, "neg": False, "ci": False}]}],
                       "srcbytes": list(("find all " + chr(q) + body + chr(q)).encode("latin-1")),
                       "litq": q, "litbody": list(body.encode("latin-1")), "texts": [bs] + near + [bs + bs]})
+    # every pair of bytes from a set of delicate ones (line ends, quotes, backslash, letters that name escapes) in
+    # every combination of spellings: raw next to raw, raw next to escaped, ...
+    delicate = [10, 13, 9, 32, 97, 120, 48, 39, 34, 92, 110]
+    base = len(cases)
+    k = 0
+    for q in (39, 34):
+        for b1 in delicate:
+            for b2 in delicate:
+                for s1 in lit_spell_opts(b1, q)[1:]:
+                    for s2 in lit_spell_opts(b2, q)[1:]:
+                        if s1.startswith("\\x") and len(s1) == 4 and False:
+                            continue
+                        k += 1
+                        if quick and k % 2 and not (b1 == 13 and b2 == 10):
+                            continue
+                        bs = [b1, b2]
+                        body = s1 + s2
+                        cases.append({"id": base + k, "cmds": [{"kind": "find", "amt": {"k": "all"},
+                                      "body": [{"k": "lit", "s": bs, "neg": False, "ci": False}]}],
+                                      "srcbytes": list(("find all " + chr(q) + body + chr(q)).encode("latin-1")),
+                                      "litq": q, "litbody": list(body.encode("latin-1")),
+                                      "texts": [bs, [b1], [b2], [b2, b1], [b1, b1, b2, b2], [b1, 32, b2]]})
     exps, st3 = vlib.eval_cases(ctx.scratch, cases, module="EvalLit", extra_const="CONSTANT LexDev = {}")
     ctx.states += st3["distinct"]
     ctx.transitions += st3["states"]
@@ -1237,6 +1313,14 @@ def c17_cases():
     for n in (1, 2, 3):
         for combo in itertools.product(toks, repeat=n):
             texts.append(list(b"".join(combo)))
+    # characters beyond the basic plane (surrogate pairs in JSON escapes), the last BMP character, line separators
+    for e in ("\U0001F600", "\U00010000", "\U0010FFFF", "\uffff", "\u2028", "\ud7ff", "\ue000"):
+        eb = e.encode()
+        texts.append(list(eb))
+        texts.append(list(eb + eb))
+        for t in toks:
+            texts.append(list(eb + t))
+            texts.append(list(t + eb + t))
     anyc = {"k": "cls", "c": "any", "neg": False}
     cap = lambda name, body: {"k": "cap", "name": name, "body": body}
     loop = lambda mn, mx, body: {"k": "loop", "min": mn, "max": mx, "few": False, "name": "", "body": body}
